@@ -87,6 +87,7 @@ type Verdict struct {
 	Evals        int            `json:"evals"` // when set: evaluations this run stands for (instead of 1)
 	OpsDone      int            `json:"ops_done"`
 	Sample       []string       `json:"sample,omitempty"`
+	Notes        []string       `json:"notes,omitempty"`
 	Trace        []string       `json:"trace,omitempty"`
 }
 
@@ -426,6 +427,7 @@ func Execute(t *testing.T, sc Scenario, c *Case, recording bool, tapeSeed uint64
 			}
 			v.Probes = env.Probes()
 			if trace {
+				v.Notes = env.Notes()
 				v.Trace = s.Trace()
 				// where every goroutine of the run stands (to explain hangs)
 				buf := make([]byte, 1<<20)
